@@ -19,7 +19,7 @@ import (
 
 func init() { register(factsC15Cleanup) }
 
-// retiredFlag: the bool field of ActiveUser that GetSession tests first thing (`if u.<f> { return nil, false, err }`)
+// retiredFlag: the bool field of ActiveUser that GetSession tests at its top level with `if u.<f> { return nil, false, err }`
 func retiredFlag() string {
 	gs := fnOf(sv, "ActiveUser.GetSession")
 	if gs == nil || gs.Body == nil {
@@ -27,13 +27,16 @@ func retiredFlag() string {
 	}
 	for _, st := range gs.Body.List {
 		is, ok := st.(*ast.IfStmt)
-		if !ok {
+		if !ok || is.Init != nil || len(is.Body.List) != 1 {
 			continue
 		}
-		if sel, ok := is.Cond.(*ast.SelectorExpr); ok && sel.Sel.Name != "bypass" && structHasBoolField(sv, "ActiveUser", sel.Sel.Name) {
+		sel, ok := is.Cond.(*ast.SelectorExpr)
+		if !ok || sel.Sel.Name == "bypass" || !structHasBoolField(sv, "ActiveUser", sel.Sel.Name) {
+			continue
+		}
+		if rs, ok := is.Body.List[0].(*ast.ReturnStmt); ok && len(rs.Results) == 3 && show(rs.Results[0]) == "nil" && show(rs.Results[2]) != "nil" {
 			return sel.Sel.Name
 		}
-		break
 	}
 	return ""
 }
@@ -168,14 +171,21 @@ func cleanupHelperShape(fn *ast.FuncDecl) (shape, retires bool) {
 		return false, false
 	}
 	s := next()
-	// optional: u.<flag> = u.<flag> || e    or    if e { u.<flag> = true }
-	if flag != "" && s != nil {
+	// optional: u.<F> = u.<F> || e    or    if e { u.<F> = true }    for a bool field F of ActiveUser; it counts as
+	// "retires" when F is the flag GetSession tests
+	if s != nil {
 		t := strings.ReplaceAll(show(s), " ", "")
 		t = strings.ReplaceAll(strings.ReplaceAll(t, "\n", ""), "\t", "")
-		f := u + "." + flag
-		if t == f+"="+f+"||"+e || t == f+"="+e+"||"+f || t == "if"+e+"{"+f+"=true}" {
-			retires = true
+		q := regexp.QuoteMeta
+		for _, re := range []string{`^` + q(u) + `\.(\w+)=` + q(u) + `\.(\w+)\|\|` + q(e) + `$`, `^` + q(u) + `\.(\w+)=` + q(e) + `\|\|` + q(u) + `\.(\w+)$`,
+			`^if` + q(e) + `\{` + q(u) + `\.(\w+)=true\}$`} {
+			m := regexp.MustCompile(re).FindStringSubmatch(t)
+			if m == nil || (len(m) == 3 && m[1] != m[2]) || m[1] == "bypass" || !structHasBoolField(sv, "ActiveUser", m[1]) {
+				continue
+			}
+			retires = flag != "" && m[1] == flag
 			s = next()
+			break
 		}
 	}
 	if !isCall(s, u+".sessionsM.Unlock()") {
